@@ -7,9 +7,21 @@
 // reference automaton kept in the state next to the cloned refstore state.
 // Device and user codes come from crypto/rand; nothing depends on their values
 // (the actors hold them by flow index, Canon renames them to that index).
+// Operation labels: da:<client>:<scope set>[:<chan>], ap:<flow>:<user>, dn:<flow>,
+// adv, near, poll:<flow|g|e>:<who>[:<chan>], to:<flow>, slow:<flow>,
+// pf:<flow>:<StorageMethod>:<k>:<err|deadline> (poll by the initiator while the k-th
+// call of that storage method fails), pfb:... (the same with a wrong secret);
+// <chan> = gq (grant_type in the URL query) | q (everything in the URL query).
 //
-// Part 2 (format_test.go): engine E1 over the user-code configuration grid and
-// the cryptotest stand-in for "unguessable".
+// Part 2 (format_test.go): engine E1 over the user-code configuration grid
+// (x issuer strategy x one or two Host values per provider) and the cryptotest
+// stand-in for "unguessable".
+//
+// Part 3 (client_test.go): the library's own device client polling the provider.
+//
+// Part 4 (callers_test.go): engine E1, full product of initiating client kind x
+// state of the flow x authentication method x credential owner x form client_id x
+// parameter channel; also home of the request builder and the judges that part 1 shares.
 package c16
 
 import (
@@ -45,20 +57,20 @@ var errInjected = errors.New("injected storage fault")
 
 // flow is what the actors and the reference automaton know about one device flow.
 type flow struct {
-	Client string
-	Scopes string
-	DC, UC string        // the codes handed out (held by device / user)
-	ExpOff time.Duration // reference: instant (offset from Epoch) the code expires
-	By     string        // reference: approving user ("" = not approved)
-	Denied bool          // reference: user denied
-	Faulted bool         // reference: a poll of this flow met a storage fault (what later polls are owed is then open)
+	Client  string
+	Scopes  string
+	DC, UC  string        // the codes handed out (held by device / user)
+	ExpOff  time.Duration // reference: instant (offset from Epoch) the code expires
+	By      string        // reference: approving user ("" = not approved)
+	Denied  bool          // reference: user denied
+	Faulted bool          // reference: a poll of this flow met a storage fault (what later polls are owed is then open)
 }
 
 type S struct {
-	St    *refstore.State
-	Off   time.Duration // fake clock (offset from engine.Epoch)
-	Flows []flow
-	Slow  int // slow polls so far (bounded, they move the clock)
+	St     *refstore.State
+	Off    time.Duration // fake clock (offset from engine.Epoch)
+	Flows  []flow
+	Slow   int // slow polls so far (bounded, they move the clock)
 	Faults int // polls with an injected storage fault that fired so far (bounded per history)
 }
 
@@ -103,13 +115,12 @@ type part struct {
 	daClients  []string // clients that try to start a flow
 	maxFlows   int
 	users      []string
-	near, slow bool // thorough: advance to 1 s before expiry; really slow storage
-	extraWho   bool // thorough: wrong secret
-	chans      []string // parameter channels offered for device_authorization and poll
-	maxFaults  int      // injected storage faults per history
-	faultKinds []string // "err" (opaque storage error) | "deadline" (context.DeadlineExceeded)
+	near, slow bool                // thorough: advance to 1 s before expiry; really slow storage
+	extraWho   bool                // thorough: wrong secret
+	chans      []string            // parameter channels offered for device_authorization and poll
+	maxFaults  int                 // injected storage faults per history
+	faultKinds []string            // "err" (opaque storage error) | "deadline" (context.DeadlineExceeded)
 	journals   map[string][]string // storage calls of an approved poll, per "client|scopes" (fault positions)
-	oneScope   bool                // only the first scope set
 }
 
 // refJournals records, per flow kind, the storage calls of an approved poll by the
@@ -118,8 +129,8 @@ func (p *part) refJournals() {
 	p.journals = map[string][]string{}
 	r := p.newRig()
 	for _, cl := range p.daClients {
-		for i, scopes := range scopeSets {
-			if cl == "norefresh" || cl == "ghost" || cl == "web-nocred" || (p.oneScope && i > 0) {
+		for _, scopes := range scopeSets {
+			if cl == "norefresh" || cl == "ghost" || cl == "web-nocred" {
 				continue
 			}
 			if pan := engine.Bubble(p.c.T, 0, func() {
@@ -133,6 +144,13 @@ func (p *part) refJournals() {
 				r.Token(p.router, form, authFor(r, cl, form))
 				for _, call := range r.Core.JournalCopy() {
 					p.journals[cl+"|"+scopes] = append(p.journals[cl+"|"+scopes], call.Method)
+				}
+				if secretOf(r, cl) != "" { // the calls a poll with a wrong secret reaches
+					r.Core.Reset(r.Core.St)
+					r.Token(p.router, url.Values{"grant_type": {devGrant}, "device_code": {fl.DC}}, rig.Basic(cl, "not-the-secret"))
+					for _, call := range r.Core.JournalCopy() {
+						p.journals["badsec|"+cl+"|"+scopes] = append(p.journals["badsec|"+cl+"|"+scopes], call.Method)
+					}
 				}
 			}); pan != "" {
 				p.c.Internal("reference journal: " + pan)
@@ -173,7 +191,7 @@ func (p *part) ops(s S) []string {
 	if len(s.Flows) < p.maxFlows {
 		for _, cl := range p.daClients {
 			for i := range scopeSets {
-				if i > 0 && (cl == "norefresh" || cl == "ghost" || cl == "web-nocred" || p.oneScope) {
+				if i > 0 && (cl == "norefresh" || cl == "ghost" || cl == "web-nocred") {
 					continue
 				}
 				for _, ch := range p.channels() {
@@ -237,6 +255,14 @@ func (p *part) ops(s S) []string {
 				seen[m]++
 				for _, kind := range p.faultKinds {
 					out = append(out, fmt.Sprintf("pf:%d:%s:%d:%s", i, m, seen[m], kind))
+				}
+			}
+			// the same under a caller with a wrong secret (a provider that fails open on a storage error)
+			seen = map[string]int{}
+			for _, m := range p.journals["badsec|"+f.Client+"|"+f.Scopes] {
+				seen[m]++
+				for _, kind := range p.faultKinds {
+					out = append(out, fmt.Sprintf("pfb:%d:%s:%d:%s", i, m, seen[m], kind))
 				}
 			}
 		}
@@ -489,6 +515,8 @@ func (p *part) exec(r *rig.Rig, s *S, opl string) engine.Result {
 		return p.poll(r, s, f[1], "init", "slow", "b")
 	case "pf":
 		return p.poll(r, s, f[1], "init", strings.Join(f[2:], ":"), "b")
+	case "pfb":
+		return p.poll(r, s, f[1], "badsec", strings.Join(f[2:], ":"), "b")
 	}
 	p.c.Internal("unknown op " + opl)
 	return engine.Result{Rule: "internal", Outcome: "?"}
@@ -709,7 +737,15 @@ func (p *part) poll(r *rig.Rig, s *S, code, who, storage, ch string) engine.Resu
 		}
 		return engine.OK(rule, o)
 	}
+	if fired {
+		// a storage call failed underneath this poll: whatever it answers, later polls of the flow are owed nothing
+		s.Faults++
+		fl.Faulted = true
+	}
 	if who != "init" {
+		if fired {
+			return judgeRefuse(rn, "poll-foreign-"+who+"+storage-fault", who+"+storage-fault", ch, *fl, ob)
+		}
 		return judgeRefuse(rn, "poll-foreign-"+who+cs, who, ch, *fl, ob)
 	}
 	now := s.Off
@@ -726,10 +762,7 @@ func (p *part) poll(r *rig.Rig, s *S, code, who, storage, ch string) engine.Resu
 		}
 		return engine.OK(rule, o)
 	case storage != "" && fired:
-		// a storage call failed underneath the poll: an error answer is fine whatever its code and nothing
-		// is owed afterwards; a success counts as delivery and is judged like any other
-		s.Faults++
-		fl.Faulted = true
+		// an error answer is fine whatever its code; a success counts as delivery and is judged like any other
 		entitled := fl.By != "" && !fl.Denied
 		rule := "poll-storage-fault-not-approved"
 		if entitled {
@@ -770,13 +803,18 @@ func (p *part) poll(r *rig.Rig, s *S, code, who, storage, ch string) engine.Resu
 func TestCheck(t *testing.T) {
 	c := engine.Start(t, "C16")
 	defer c.Finish()
-	c.SetRule("device_code token requests yield tokens only after the user approved that very code and only to the authenticated client that started the flow " +
+	c.SetRule("device_code token requests yield tokens only after the user approved that very code and only to the authenticated (for a public client: identified) client that started the flow, " +
+		"whatever the parameter channel (body / grant_type in the URL query / everything in the URL query), the caller's authentication method and form client_id, and also while storage calls fail " +
 		"(pending / denied / expired / storage time-out answer authorization_pending / access_denied / expired_token / slow_down; unknown or foreign codes are refused; " +
-		"tokens carry the approver's subject and the requested scopes); device authorization responses carry a random 22-character device code, a user code in the configured " +
-		"alphabet and grouping, verification URIs on the issuer that decode to the same code, and the configured lifetime and interval")
+		"tokens carry the approver's subject and the requested scopes); device authorization responses carry an unguessable device code (at least 22 characters, a function of the crypto/rand stream), " +
+		"a user code in the configured alphabet and grouping, verification URIs on the issuer of that very request that decode to the same code, and the configured lifetime and interval")
 	c.Assume("refstore is the reference DeviceAuthorizationStorage (GetDeviceAuthorizatonState refuses a code of another client, reports the request context's error when it is already over)",
 		"approved-and-expired, a poll exactly at the expiry instant, and a flow started for a confidential client without credentials are Either (DESIGN 1.6)",
-		"a denial is final: once denied the answer is access_denied even if an approval is also on record",
+		"a denial is final: once denied the answer is access_denied even if an approval is also on record, in whichever order the storage recorded them (refstore allows approve/deny, deny/approve, and both after expiry)",
+		"the storage contract has no redemption call and refstore keeps an approved code redeemable: repeated success for one device code is the storage's business (Either); what is demanded is never before approval, never after denial, never to another client",
+		"parameters in the URL query: a provider that does not read them may refuse (Either), a success is judged like any other, a request that must be refused in the body must be refused in every channel",
+		"which channel (header or body) carries a correct secret of a secret-registered client is Either (DESIGN 1.6, C05): a success is judged, a refusal accepted; at least one of the two must serve an approved flow",
+		"a poll under which a storage call failed may answer any error or succeed; afterwards the flow is owed nothing (a later success is still judged)",
 		"unguessable is decided by its deterministic stand-in: codes are a function of the crypto/rand stream (same seed same codes, other seed other codes)")
 
 	// replay: run only the part the file belongs to (RunE2 decodes the case as an operation
@@ -796,7 +834,9 @@ func TestCheck(t *testing.T) {
 			daClients: engine.Pick(c, []string{"web", "pub", "norefresh", "ghost"}, []string{"web", "pub", "webjwt", "jwt", "norefresh", "ghost", "web-nocred"}),
 			maxFlows:  2, users: []string{"u1", "u2"},
 			near: c.Thorough(), slow: true, extraWho: c.Thorough(),
-			chans: chans, maxFaults: 1, faultKinds: engine.Pick(c, []string{"err"}, []string{"err", "deadline"})}
+			// quick: one storage fault per history here; thorough: the larger client alphabet here without
+			// faults, and up to two faults per history over the quick alphabet in the part fault-<router>
+			chans: chans, maxFaults: engine.Pick(c, 1, 0), faultKinds: []string{"err", "deadline"}}
 		p.refJournals()
 		engine.RunE2(c, engine.E2[S]{
 			Part:      "hist-" + rig.Routers[router],
@@ -804,7 +844,7 @@ func TestCheck(t *testing.T) {
 			Ops:       p.ops,
 			NewStep:   p.newStep,
 			Canon:     canon,
-			MaxDepth:  engine.Pick(c, 10, 12),
+			MaxDepth:  engine.Pick(c, 12, 14),
 			MaxStates: 600000,
 		})
 	}
@@ -820,16 +860,16 @@ func TestCheck(t *testing.T) {
 				Ops: p.ops, NewStep: p.newStep, Canon: canon, MaxDepth: 14, MaxStates: 600000,
 			})
 		}
-		// two storage faults per history (one flow kind per client kind, one user: the fault positions are the subject)
+		// up to two storage faults per history, over the quick tier's alphabet (every channel, wrong secret included)
 		for router := 0; router < 2; router++ {
-			if !want("fault2-" + rig.Routers[router]) {
+			if !want("fault-" + rig.Routers[router]) {
 				continue
 			}
-			p := &part{c: c, router: router, daClients: []string{"web", "pub", "jwt"}, maxFlows: 2, users: []string{"u1"},
-				maxFaults: 2, faultKinds: []string{"err", "deadline"}, oneScope: true}
+			p := &part{c: c, router: router, daClients: []string{"web", "pub", "norefresh", "ghost"}, maxFlows: 2, users: []string{"u1", "u2"},
+				slow: true, extraWho: true, chans: chans, maxFaults: 2, faultKinds: []string{"err", "deadline"}}
 			p.refJournals()
 			engine.RunE2(c, engine.E2[S]{
-				Part: "fault2-" + rig.Routers[router], Init: S{St: refstore.NewState()},
+				Part: "fault-" + rig.Routers[router], Init: S{St: refstore.NewState()},
 				Ops: p.ops, NewStep: p.newStep, Canon: canon, MaxDepth: 14, MaxStates: 600000,
 			})
 		}
